@@ -19,7 +19,7 @@ from __future__ import annotations
 
 import torch
 
-from .. import rig
+from .. import core, rig
 from . import engine_check as EC
 from . import engine_rig as E
 
@@ -186,6 +186,29 @@ def shared_ledger_search(ctx):
             ctx.validated()
 
 
+def ddp_perlayer_search(ctx):
+    """DistributedPerLayerOptimizer (clip / noise inside backward hooks, its own pre_step) is not part of the
+    protocol machine: its accounting is checked on the real code in a real one-process gloo group (spawned
+    through the C18 rig): one record per logical step, at the sigma in force and sample rate q·k."""
+    from . import c18
+
+    cfgs = [c18.gen_config(ctx.rng, 1, variant="perlayer_hooks", allow_empty=False, idx=900 + i, path=p) for i, p in enumerate(["engine", "direct"])]
+    for cfg, res in zip(cfgs, c18.run_group(ctx, 1, cfgs)):
+        r0 = res[0] if res else None
+        T = len(cfg["steps"])
+        ctx.case(("ddp-perlayer", cfg["path"], cfg["sigma"], T), nontrivial=True, kind="ddp-perlayer-accounting")
+        if r0 is None or "error" in r0 or any("error" in st for st in r0.get("steps", [])):
+            ctx.count("ddp-perlayer:implementation-raised")
+            continue
+        h = r0.get("history")
+        ok = h is not None and len(h) == 1 and h[0][0] == cfg["sigma"] and core.close(h[0][1], 1.0 / 3.0, 1e-12) and h[0][2] == T
+        if ok:
+            ctx.validated()
+        else:
+            ctx.property_failure("C05:ddp-perlayer:ledger", f"DistributedPerLayerOptimizer ({cfg['path']} path, one-process gloo group): after {T} noised steps at sigma={cfg['sigma']}, "
+                                 f"sample rate 1/3 the accountant history is {h}", {"failing_input": {"cfg": {k: cfg[k] for k in ('variant', 'path', 'sigma', 'E', 'reduction')}}, "history": h})
+
+
 def run(ctx):
     with rig.default_dtype(torch.float64):
         cases = []
@@ -218,6 +241,7 @@ def run(ctx):
             ctx.mismatch("engine-accounting", {"cfg": cfg, "ops": ops[:diff] if diff else ops, "full_ops": ops, "acct": acct}, real[: diff + 1], model[: diff + 1],
                          oracle=case_oracle, note=f"first differing op index {diff}: {ops[diff-1] if diff else 'new'}")
         shared_ledger_search(ctx)
+    ddp_perlayer_search(ctx)
 
 
 def replay(ctx, rp):
